@@ -123,6 +123,13 @@ func try2Float64(v interface{}) interface{} {
 	switch n := v.(type) {
 	case *decimal.Big:
 		r, _ := n.Float64()
+		if r == 0 && n.Sign() != 0 {
+			// Float64 divides by math.Pow10(scale), which is +Inf beyond 10^308:
+			// small numbers come back as 0. Their text parses to the nearest float64.
+			if p, err := strconv.ParseFloat(n.String(), 64); err == nil {
+				r = p
+			}
+		}
 		return r
 	}
 	return v
